@@ -737,3 +737,93 @@ Proof.
   intros Hb. destruct (compress_code_correct text Hb) as (s & sfx & Es & _ & Ew & Hall & Hd).
   exists s, sfx. auto.
 Qed.
+
+(* ------------------------------------------------------------------ the suffix scan is the source's index loops *)
+Lemma skipn_cons_nth_d {A} (d : A) l n x t : skipn n l = x :: t -> nth n l d = x /\ skipn (S n) l = t.
+Proof.
+  revert l; induction n as [|n IH]; intros l H.
+  - cbn in H. subst l. split; reflexivity.
+  - destruct l as [|y l]; [discriminate|]. cbn [skipn nth] in *. apply IH. exact H.
+Qed.
+
+Lemma skipn_cons_datf dat j x t : 0 <= j -> skipn (Z.to_nat j) dat = x :: t ->
+  datf dat j = x /\ skipn (Z.to_nat (j + 1)) dat = t.
+Proof.
+  intros Hj H. unfold datf. replace (Z.to_nat (j + 1)) with (S (Z.to_nat j)) by lia.
+  apply skipn_cons_nth_d. exact H.
+Qed.
+
+Lemma skipn_nonempty {A} (l : list A) n : (n < length l)%nat -> exists x t, skipn n l = x :: t.
+Proof.
+  intros H. destruct (skipn n l) as [|x t] eqn:E; [|eauto].
+  assert (length (skipn n l) = 0%nat) by (rewrite E; reflexivity). rewrite skipn_length in *. lia.
+Qed.
+
+(* the inner loop: from j, with a = dat[j:], b = dat[pos+j-i:] *)
+Lemma inner_loop_eq dat i pos max_len : 0 <= i -> 0 <= pos <= zlen dat -> pos + max_len <= zlen dat ->
+  forall n j fuel, i <= j -> n = Z.to_nat (max_len - (j - i)) -> (n < fuel)%nat ->
+  frb_inner_loop fuel dat i j max_len pos =
+  j + Z.of_nat (cpl n (Z.to_nat (pos - j)) (skipn (Z.to_nat j) dat) (skipn (Z.to_nat (pos + j - i)) dat)).
+Proof.
+  intros Hi Hpos Hml. induction n as [|n IH]; intros j fuel Hj Hn Hf.
+  - destruct fuel; [lia|]. cbn [frb_inner_loop cpl]. rewrite pin_frb_inner.
+    assert (E : (j - i <? max_len) = false) by lia. rewrite E. cbn [andb]. lia.
+  - destruct fuel; [lia|]. cbn [frb_inner_loop]. rewrite pin_frb_inner.
+    assert (E : (j - i <? max_len) = true) by lia. rewrite E. cbn [andb].
+    destruct (j <? pos) eqn:Ejp.
+    + destruct (skipn_nonempty dat (Z.to_nat j)) as (x & a' & Ea); [unfold zlen in *; lia|].
+      destruct (skipn_nonempty dat (Z.to_nat (pos + j - i))) as (y & b' & Eb); [unfold zlen in *; lia|].
+      destruct (skipn_cons_datf dat j x a' ltac:(lia) Ea) as (Dx & Ea').
+      destruct (skipn_cons_datf dat (pos + j - i) y b' ltac:(lia) Eb) as (Dy & Eb').
+      rewrite Ea, Eb. replace (Z.to_nat (pos - j)) with (S (Z.to_nat (pos - (j + 1)))) by lia.
+      cbn [cpl andb]. rewrite Dx, Dy. destruct (x =? y) eqn:Exy.
+      * rewrite (IH (j + 1) fuel) by lia. rewrite Ea'.
+        replace (pos + (j + 1) - i) with (pos + j - i + 1) by lia. rewrite Eb'. lia.
+      * lia.
+    + cbn [andb]. replace (Z.to_nat (pos - j)) with O by lia. cbn [cpl]. lia.
+Qed.
+
+Definition best_i_of (pos : Z) (bd : nat) : Z := match bd with O => frb_best_i0 | _ => pos - Z.of_nat bd end.
+
+Lemma outer_loop_eq dat pos max_len : 0 <= pos <= zlen dat -> 0 <= max_len -> pos + max_len <= zlen dat ->
+  forall d i fuel bl bd, i = pos - Z.of_nat d -> 0 <= i -> (d < fuel)%nat ->
+  frb_outer_loop fuel dat i pos max_len (Z.of_nat bl) (best_i_of pos bd) =
+  (let '(bl', bd') := scan (skipn (Z.to_nat i) dat) d (skipn (Z.to_nat pos) dat) (Z.to_nat max_len) bl bd in
+   (Z.of_nat bl', best_i_of pos bd')).
+Proof.
+  intros Hpos Hml0 Hml. induction d as [|d IH]; intros i fuel bl bd Hi Hi0 Hf.
+  - destruct fuel; [lia|]. cbn [frb_outer_loop]. rewrite pin_frb_outer.
+    assert (E : (i <? pos) = false) by lia. rewrite E.
+    destruct (skipn (Z.to_nat i) dat); reflexivity.
+  - destruct fuel; [lia|]. cbn [frb_outer_loop]. rewrite pin_frb_outer.
+    assert (E : (i <? pos) = true) by lia. rewrite E.
+    destruct (skipn_nonempty dat (Z.to_nat i)) as (x & w' & Ew); [unfold zlen in *; lia|].
+    destruct (skipn_cons_datf dat i x w' Hi0 Ew) as (_ & Ew').
+    rewrite (inner_loop_eq dat i pos max_len Hi0 Hpos Hml (Z.to_nat max_len) i (S (Z.to_nat max_len))) by lia.
+    replace (pos + i - i) with pos by lia. replace (Z.to_nat (pos - i)) with (S d) by lia.
+    rewrite Ew. cbn [scan]. rewrite <- Ew.
+    set (l := cpl (Z.to_nat max_len) (S d) (skipn (Z.to_nat i) dat) (skipn (Z.to_nat pos) dat)).
+    unfold frb_better, frb_new_len.
+    replace (i + Z.of_nat l - i) with (Z.of_nat l) by lia.
+    destruct (Nat.ltb bl l) eqn:Eb.
+    + apply Nat.ltb_lt in Eb. assert (E2 : (Z.of_nat l >? Z.of_nat bl) = true) by lia. rewrite E2.
+      pose proof (IH (i + 1) fuel l (S d) ltac:(lia) ltac:(lia) ltac:(lia)) as IH1.
+      replace (best_i_of pos (S d)) with i in IH1 at 1 by (unfold best_i_of; lia).
+      rewrite IH1, Ew'. reflexivity.
+    + apply Nat.ltb_ge in Eb. assert (E2 : (Z.of_nat l >? Z.of_nat bl) = false) by lia. rewrite E2.
+      rewrite (IH (i + 1) fuel bl bd) by lia. rewrite Ew'. reflexivity.
+Qed.
+
+Lemma find_repeatable_block_ref_eq dat pos : 0 <= pos <= zlen dat ->
+  find_repeatable_block dat pos = find_repeatable_block_ref dat pos.
+Proof.
+  intros Hpos. unfold find_repeatable_block, find_repeatable_block_ref, find_block.
+  unfold frb_i0, frb_hist, frb_max_len, frb_max_block_len, frb_best_len0.
+  assert (HW : 0 <= frb_window) by (unfold frb_window; lia).
+  set (ml := Z.min 17 (zlen dat - pos)). set (h := Z.min frb_window pos).
+  change 0 with (Z.of_nat 0) at 2. change frb_best_i0 with (best_i_of pos 0).
+  rewrite (outer_loop_eq dat pos ml Hpos ltac:(unfold ml; lia) ltac:(unfold ml; lia) (Z.to_nat h) (pos - h)
+             (S (Z.to_nat h)) 0 0) by (unfold h; lia).
+  change (Z.to_nat 0) with O.
+  destruct (scan _ _ _ _ _ _) as [bl bd]. reflexivity.
+Qed.
